@@ -291,6 +291,202 @@ pub fn collection_diag_projects() -> Vec<Project> {
     v
 }
 
+/// WELL-typed programs in which k members (k = 2..=6) of one kind end up in a collection that the middle and back
+/// end turn into output — one family per collection: Go packages named by `extern "go"` functions / by extern
+/// types (import lines; some already imported by the runtime prelude, some declared twice, some with a path of
+/// several segments), distinct tuple / array / `Ref` / `Vec` types (runtime type declarations), structs and enums
+/// (type definitions), `dyn` traits and their implementors (vtables, helper functions), closures (environment
+/// structs, apply functions), instances of generic functions / structs / enums and of trait-bounded functions
+/// (monomorphised copies), inherent and trait methods, `go` statements, externs spread over k packages of a
+/// project (the separate build + `link` path).  Every declared member is used, so none is pruned.  The members
+/// are written in an order that is neither ascending nor descending, so "sorted" and "as written" differ too.
+pub fn emission_collection_projects() -> Vec<Project> {
+    // (Go package, Go symbol, goml name, parameter type, argument literal) — all `-> string`-free simple functions;
+    // order as written is not sorted
+    let ext_fns: [(&str, &str, &str, &str, &str, &str); 6] = [
+        ("strconv", "Quote", "quote", "string", "string", "\"q\""),
+        ("math", "Sqrt", "sqrt", "float64", "float64", "2.0"),
+        ("path/filepath", "Base", "fbase", "string", "string", "\"a/b\""),
+        ("html", "EscapeString", "hesc", "string", "string", "\"<b>\""),
+        ("os", "Getenv", "getenv", "string", "string", "\"HOME\""),
+        ("net/url", "QueryEscape", "qesc", "string", "string", "\"a b\""),
+    ];
+    // extern types: (Go package, Go type = conversion function, goml type name, constructor name, argument type, literal)
+    let ext_tys: [(&str, &str, &str, &str, &str, &str); 6] = [
+        ("time", "Duration", "Duration", "mk_duration", "int32", "5"),
+        ("reflect", "Kind", "Kind", "mk_kind", "int32", "2"),
+        ("html/template", "HTML", "Html", "mk_html", "string", "\"<i>\""),
+        ("syscall", "Signal", "Signal", "mk_signal", "int32", "9"),
+        ("io/fs", "FileMode", "FileMode", "mk_mode", "int32", "420"),
+        ("math/big", "Accuracy", "Accuracy", "mk_acc", "int32", "1"),
+    ];
+    let show = |ty: &str, e: &str| -> String {
+        match ty {
+            "string" => e.to_string(),
+            "float64" => format!("float64_to_string({e})"),
+            "bool" => format!("bool_to_string({e})"),
+            _ => format!("int32_to_string({e})"),
+        }
+    };
+    // element types for tuples / arrays / refs / vecs / generic instances: (type, literal)
+    let elems: [(&str, &str); 6] = [("string", "\"s\""), ("int32", "7"), ("float64", "1.5"), ("bool", "true"), ("unit", "()"), ("int64", "9i64")];
+    let names = ["zeta", "alpha", "mid", "beta", "omega", "gamma"];
+    let mut v = Vec::new();
+    for k in 2..=6usize {
+        let mut fam: Vec<(&str, Vec<(String, String)>)> = Vec::new();
+        let single = |src: String| vec![("main.gom".to_string(), src)];
+
+        // ---- extern "go" functions of k Go packages
+        let decls: String = ext_fns.iter().take(k).map(|(p, s, n, a, r, _)| format!("extern \"go\" \"{p}\" \"{s}\" {n}(x: {a}) -> {r}\n")).collect();
+        let uses: String = ext_fns.iter().take(k).map(|(_, _, n, _, r, lit)| format!("    string_println({});\n", show(r, &format!("{n}({lit})")))).collect();
+        fam.push(("extern-fn-packages", single(format!("{decls}\nfn main() {{\n{uses}}}\n"))));
+        // the same packages, two functions each, mixed with functions of packages the runtime prelude imports itself
+        let decls2: String = ext_fns.iter().take(k).map(|(p, s, n, a, r, _)| format!("extern \"go\" \"{p}\" \"{s}\" {n}(x: {a}) -> {r}\nextern \"go\" \"strings\" \"ToUpper\" up_{n}(x: string) -> string\nextern \"go\" \"{p}\" \"{s}\" {n}_again(x: {a}) -> {r}\nextern \"go\" \"fmt\" \"Sprint\" sp_{n}(x: {r}) -> string\n")).collect();
+        let uses2: String = ext_fns.iter().take(k).map(|(_, _, n, _, _, lit)| format!("    string_println(up_{n}(sp_{n}({n}({lit}))) + sp_{n}({n}_again({lit})));\n")).collect();
+        fam.push(("extern-fn-packages-repeated-and-prelude", single(format!("{decls2}\nfn main() {{\n{uses2}}}\n"))));
+        // only some of the declared functions are used: the unused imports are pruned, the rest keep their order
+        let uses3: String = ext_fns.iter().take(k).enumerate().filter(|(i, _)| i % 3 != 1).map(|(_, (_, _, n, _, r, lit))| format!("    string_println({});\n", show(r, &format!("{n}({lit})")))).collect();
+        fam.push(("extern-fn-packages-partly-unused", single(format!("{decls}\nfn main() {{\n{uses3}}}\n"))));
+        // used only from closures, `go` statements and other functions
+        let helpers: String = ext_fns.iter().take(k).map(|(_, _, n, a, r, _)| format!("fn via_{n}(x: {a}) -> {r} {{\n    let f = |y: {a}| {n}(y);\n    f(x)\n}}\n\n")).collect();
+        let uses4: String = ext_fns.iter().take(k).map(|(_, _, n, _, r, lit)| format!("    string_println({});\n", show(r, &format!("via_{n}({lit})")))).collect();
+        fam.push(("extern-fn-packages-via-closures", single(format!("{decls}\n{helpers}fn main() {{\n{uses4}}}\n"))));
+
+        // ---- extern types of k Go packages (each gets its package from the first extern function that mentions it)
+        let tdecls: String = ext_tys.iter().take(k).map(|(_, _, t, _, _, _)| format!("extern type {t}\n")).collect();
+        let tfns: String = ext_tys.iter().take(k).map(|(p, g, t, c, a, _)| format!("extern \"go\" \"{p}\" \"{g}\" {c}(x: {a}) -> {t}\nextern \"go\" \"fmt\" \"Sprint\" show_{c}(x: {t}) -> string\n")).collect();
+        let tuses: String = ext_tys.iter().take(k).map(|(_, _, _, c, _, lit)| format!("    string_println(show_{c}({c}({lit})));\n")).collect();
+        fam.push(("extern-type-packages", single(format!("{tdecls}\n{tfns}\nfn main() {{\n{tuses}}}\n"))));
+        // extern types and functions of different packages interleaved; the types also sit inside structs, tuples, closures
+        let mut mixed = String::new();
+        let mut muses = String::new();
+        let mut mfields = String::new();
+        let mut minit = Vec::new();
+        for i in 0..k {
+            let (p, g, t, c, a, lit) = ext_tys[i];
+            let (fp, fs, fnm, fa, fr, flit) = ext_fns[k - 1 - i];
+            writeln!(mixed, "extern type {t}\nextern \"go\" \"{fp}\" \"{fs}\" {fnm}(x: {fa}) -> {fr}\nextern \"go\" \"{p}\" \"{g}\" {c}(x: {a}) -> {t}\nextern \"go\" \"fmt\" \"Sprint\" show_{c}(x: {t}) -> string").unwrap();
+            writeln!(mfields, "    f_{c}: {t},").unwrap();
+            minit.push(format!("f_{c}: {c}({lit})"));
+            writeln!(muses, "    string_println(show_{c}(b.f_{c}) + {});", show(fr, &format!("{fnm}({flit})"))).unwrap();
+        }
+        fam.push(("extern-types-and-fns-interleaved", single(format!("{mixed}\nstruct Bag {{\n{mfields}}}\n\nfn main() {{\n    let b = Bag {{ {} }};\n{muses}}}\n", minit.join(", ")))));
+
+        // ---- k distinct tuple / array / Ref / Vec types
+        let es: Vec<(&str, &str)> = elems.iter().take(k).cloned().collect();
+        let showv = |ty: &str, e: &str| -> String {
+            match ty {
+                "string" => e.to_string(),
+                "float64" => format!("float64_to_string({e})"),
+                "bool" => format!("bool_to_string({e})"),
+                "unit" => format!("unit_to_string({e})"),
+                "int64" => format!("int64_to_string({e})"),
+                _ => format!("int32_to_string({e})"),
+            }
+        };
+        let mut tup = String::new();
+        let mut arr = String::new();
+        let mut rf = String::new();
+        let mut vc = String::new();
+        for (i, (t, lit)) in es.iter().enumerate() {
+            let (t2, lit2) = es[(i + 1) % es.len()];
+            writeln!(tup, "    let t{i}: ({t}, {t2}, int32) = ({lit}, {lit2}, {i});\n    let (a{i}, _, c{i}) = t{i};\n    string_println({} + int32_to_string(c{i}));", showv(t, &format!("a{i}"))).unwrap();
+            writeln!(arr, "    let x{i}: {t} = {lit};\n    let r{i}: [{t}; {}] = [{}];\n    string_println({});", i + 1, vec![format!("x{i}"); i + 1].join(", "), showv(t, &format!("array_get(r{i}, 0)"))).unwrap();
+            writeln!(rf, "    let x{i}: {t} = {lit};\n    let c{i} = ref(x{i});\n    let d{i} = ref(c{i});\n    ref_set(c{i}, x{i});\n    string_println({});", showv(t, &format!("ref_get(ref_get(d{i}))"))).unwrap();
+            writeln!(vc, "    let v{i}: Vec[{t}] = vec_new();\n    let v{i} = vec_push(v{i}, {lit});\n    string_println({} + int32_to_string(vec_len(v{i})));", showv(t, &format!("vec_get(v{i}, 0)"))).unwrap();
+        }
+        fam.push(("tuple-types", single(format!("fn main() {{\n{tup}}}\n"))));
+        fam.push(("array-types", single(format!("fn main() {{\n{arr}}}\n"))));
+        fam.push(("ref-types", single(format!("fn main() {{\n{rf}}}\n"))));
+        fam.push(("vec-types", single(format!("fn main() {{\n{vc}}}\n"))));
+
+        // ---- k structs, k enums, k traits; every struct implements every trait; dyn values of every trait
+        let ns: Vec<&str> = names.iter().take(k).cloned().collect();
+        let mut defs = String::new();
+        for (i, n) in ns.iter().enumerate() {
+            writeln!(defs, "struct S{n} {{\n    v: int32,\n}}\n\nenum E{n} {{\n    A{n},\n    B{n}(int32, S{n}),\n}}\n\ntrait T{n} {{\n    fn m{n}(Self) -> int32;\n    fn w{n}(Self, int32) -> string;\n}}\n").unwrap();
+            let _ = i;
+        }
+        let mut impls = String::new();
+        for t in &ns {
+            for (j, s) in ns.iter().enumerate() {
+                writeln!(impls, "impl T{t} for S{s} {{\n    fn m{t}(self: S{s}) -> int32 {{\n        self.v + {j}\n    }}\n    fn w{t}(self: S{s}, x: int32) -> string {{\n        int32_to_string(self.v * x)\n    }}\n}}\n").unwrap();
+            }
+        }
+        let mut dynuse = String::new();
+        for (i, t) in ns.iter().enumerate() {
+            for (j, s) in ns.iter().enumerate() {
+                writeln!(dynuse, "    let d{i}_{j}: dyn T{t} = S{s} {{ v: {j} }};\n    string_println(int32_to_string(T{t}::m{t}(d{i}_{j})));\n    string_println(T{t}::w{t}(d{i}_{j}, {i}));").unwrap();
+            }
+        }
+        fam.push(("dyn-traits-and-implementors", single(format!("{defs}{impls}fn main() {{\n{dynuse}}}\n"))));
+        let mut enuse = String::new();
+        for (i, n) in ns.iter().enumerate() {
+            writeln!(enuse, "    let e{i} = E{n}::B{n}({i}, S{n} {{ v: {i} }});\n    let x{i} = match e{i} {{\n        E{n}::A{n} => 0,\n        E{n}::B{n}(q, s) => q + s.v,\n    }};\n    string_println(int32_to_string(x{i}));").unwrap();
+        }
+        fam.push(("struct-and-enum-definitions", single(format!("{defs}fn main() {{\n{enuse}}}\n"))));
+        // generic function with a bound called at every struct; inherent methods
+        let mut bounded = String::new();
+        for t in &ns {
+            writeln!(bounded, "fn call{t}[X: T{t}](x: X) -> int32 {{\n    T{t}::m{t}(x)\n}}\n").unwrap();
+        }
+        let mut inh = String::new();
+        for s in &ns {
+            writeln!(inh, "impl S{s} {{\n    fn get(self: S{s}) -> int32 {{\n        self.v\n    }}\n    fn make(x: int32) -> S{s} {{\n        S{s} {{ v: x }}\n    }}\n}}\n").unwrap();
+        }
+        let mut buse = String::new();
+        for t in &ns {
+            for (j, s) in ns.iter().enumerate() {
+                writeln!(buse, "    string_println(int32_to_string(call{t}(S{s}::make({j})) + S{s}::make({j}).get()));").unwrap();
+            }
+        }
+        fam.push(("bounded-generic-instances", single(format!("{defs}{impls}{inh}{bounded}fn main() {{\n{buse}}}\n"))));
+
+        // ---- generic function / struct / enum instantiated at k types
+        let mut guse = String::new();
+        for (i, (t, lit)) in es.iter().enumerate() {
+            writeln!(guse, "    let x{i}: {t} = {lit};\n    let p{i} = Pair {{ fst: {i}, snd: id(x{i}) }};\n    let o{i} = wrap(p{i}.snd);\n    let s{i} = match o{i} {{\n        Opt::None => x{i},\n        Opt::Some(x) => x,\n    }};\n    string_println({});\n    let _ = swap(p{i});", showv(t, &format!("s{i}"))).unwrap();
+        }
+        fam.push(("generic-instances", single(format!("struct Pair[A, B] {{\n    fst: A,\n    snd: B,\n}}\n\nenum Opt[T] {{\n    None,\n    Some(T),\n}}\n\nfn id[T](x: T) -> T {{\n    x\n}}\n\nfn wrap[T](x: T) -> Opt[T] {{\n    Opt::Some(x)\n}}\n\nfn swap[A, B](p: Pair[A, B]) -> Pair[B, A] {{\n    Pair {{ fst: p.snd, snd: p.fst }}\n}}\n\nfn main() {{\n{guse}}}\n"))));
+
+        // ---- k closures with different captures and types, k `go` statements
+        let mut cl = String::new();
+        for (i, (t, lit)) in es.iter().enumerate() {
+            writeln!(cl, "    let cap{i}: {t} = {lit};\n    let f{i} = |n: int32| {{\n        let inner = || cap{i};\n        (inner(), n + {i})\n    }};\n    let (g{i}, h{i}) = f{i}({i});\n    string_println({} + int32_to_string(h{i}));\n    go || string_println({});", showv(t, &format!("g{i}")), showv(t, &format!("cap{i}"))).unwrap();
+        }
+        fam.push(("closures-and-go-statements", single(format!("fn main() {{\n{cl}}}\n"))));
+
+        // ---- a project of k packages, each with its own extern function, struct, trait and impl (separate build + link)
+        let pk = ["Pz", "Pa", "Pm", "Pb", "Po", "Pg"];
+        let mut files: Vec<(String, String)> = Vec::new();
+        let mut main = String::from("package Main\n");
+        for p in pk.iter().take(k) {
+            writeln!(main, "import {p}").unwrap();
+        }
+        let (mp, ms, mn, ma, mr, mlit) = ext_fns[k % ext_fns.len()];
+        write!(main, "\nextern \"go\" \"{mp}\" \"{ms}\" {mn}(x: {ma}) -> {mr}\n\nfn main() {{\n    string_println({});\n", show(mr, &format!("{mn}({mlit})"))).unwrap();
+        for (i, p) in pk.iter().take(k).enumerate() {
+            let (gp, gs, gn, ga, gr, glit) = ext_fns[i];
+            let (tp, tg, tt, tc, ta, tlit) = ext_tys[i];
+            writeln!(main, "    string_println({p}::run{p}());").unwrap();
+            files.push((format!("{p}/lib.gom"), format!("package {p}\n\nextern type {tt}\nextern \"go\" \"{gp}\" \"{gs}\" {gn}(x: {ga}) -> {gr}\nextern \"go\" \"{tp}\" \"{tg}\" {tc}(x: {ta}) -> {tt}\nextern \"go\" \"fmt\" \"Sprint\" show_{tc}(x: {tt}) -> string\n\nstruct S{p} {{\n    v: int32,\n}}\n\ntrait T{p} {{\n    fn m(Self) -> int32;\n}}\n\nimpl T{p} for S{p} {{\n    fn m(self: S{p}) -> int32 {{\n        self.v + {i}\n    }}\n}}\n\nfn run{p}() -> string {{\n    let t = (S{p} {{ v: {i} }}, {glit});\n    let (s, a) = t;\n    show_{tc}({tc}({tlit})) + {} + int32_to_string(T{p}::m(s))\n}}\n", show(gr, &format!("{gn}(a)")))));
+        }
+        main.push_str("}\n");
+        files.insert(0, ("main.gom".to_string(), main));
+        fam.push(("externs-in-several-packages", files));
+
+        for (name, files) in fam {
+            v.push(Project {
+                id: format!("emit-{}-{}", name, k),
+                kind: "emission-collections",
+                files,
+                tags: vec![format!("k={}", k), format!("family={}", name)],
+            });
+        }
+    }
+    v
+}
+
 // ------------------------------------------------------------------------------------------------
 // generated multi-package projects
 
@@ -673,9 +869,14 @@ pub fn digest(s: &str) -> String {
 }
 
 fn first_diff(x: &str, y: &str) -> String {
+    // the top-level item the difference sits in: first word of the nearest line above (or at) it that starts in column 0
+    let mut item = String::new();
     for (i, (lx, ly)) in x.lines().zip(y.lines()).enumerate() {
+        if lx.chars().next().is_some_and(|c| c.is_alphabetic() || c == '_') {
+            item = lx.chars().take_while(|c| c.is_alphanumeric() || *c == '_').collect();
+        }
         if lx != ly {
-            return format!("line {}: `{}` vs `{}`", i + 1, lx.chars().take(160).collect::<String>(), ly.chars().take(160).collect::<String>());
+            return format!("line {} [in {}]: `{}` vs `{}`", i + 1, item, lx.chars().take(160).collect::<String>(), ly.chars().take(160).collect::<String>());
         }
     }
     format!("length {} vs {}", x.len(), y.len())
@@ -939,6 +1140,7 @@ fn all_projects(args: &util::Args) -> Vec<Project> {
     let mut rng = Rng::new(args.seed);
     let mut ps = corpus_projects(quick, &mut rng);
     ps.extend(collection_diag_projects());
+    ps.extend(emission_collection_projects());
     let ngen = args.n.unwrap_or(if quick { 40 } else { 240 });
     for i in 0..ngen {
         ps.push(gen_project(i, args.seed));
@@ -955,8 +1157,8 @@ fn run_child(args: &util::Args) {
     let mut projects = all_projects(&a2);
     // `only <kind>`: a cheap child that recompiles one family (many such children = many hash seeds)
     if let Some(p) = args.rest.iter().position(|x| x == "only") {
-        if let Some(kind) = args.rest.get(p + 1) {
-            projects.retain(|q| q.kind == kind.as_str());
+        if let Some(kinds) = args.rest.get(p + 1) {
+            projects.retain(|q| kinds.split(',').any(|kind| q.kind == kind));
         }
     }
     let base = util::scratch_dir(&format!("c13-child{}", child));
@@ -1008,18 +1210,25 @@ pub fn main(args: &util::Args) {
     if args.rest.first().map(|s| s.as_str()) == Some("show") {
         return run_show(args);
     }
-    if args.rest.first().map(|s| s.as_str()) == Some("cdiag") {
-        // print what the compiler says about every program of the collection-diagnostics family with k = --n
-        let base = util::scratch_dir("c13-cdiag");
-        for p in collection_diag_projects() {
+    let sub = args.rest.first().map(|s| s.as_str());
+    if sub == Some("cdiag") || sub == Some("emit") {
+        // print what the compiler says about every program of the collection-diagnostics (`cdiag`) or
+        // emission-collections (`emit`; add `--src` / `--go` for the sources / the Go text) family with k = --n
+        let base = util::scratch_dir(if sub == Some("emit") { "c13-emit" } else { "c13-cdiag" });
+        for p in if sub == Some("emit") { emission_collection_projects() } else { collection_diag_projects() } {
             if !p.tags.contains(&format!("k={}", args.n.unwrap_or(2))) {
                 continue;
             }
             let root = base.join(&p.id);
             materialize(&root, &p, 0);
             println!("=== {}", p.id);
+            if args.rest.iter().any(|x| x == "--src") {
+                for (rel, c) in &p.files {
+                    println!("--- {}\n{}", rel, c);
+                }
+            }
             for (ch, text) in observe_fresh(&root) {
-                if ch == "outcome" || ch == "diagnostics" {
+                if ch == "outcome" || ch == "diagnostics" || (sub == Some("emit") && ch == "interfaces") || (ch == "go" && args.rest.iter().any(|x| x == "--go")) {
                     println!("[{}] {}", ch, text.trim_end());
                 }
             }
@@ -1115,7 +1324,7 @@ pub fn main(args: &util::Args) {
     let mut cdiag_out = String::new();
     for p in &projects {
         let multi = p.imports_of_main() >= 2;
-        let cdiag = p.kind == "collection-diagnostics";
+        let cdiag = p.kind == "collection-diagnostics" || p.kind == "emission-collections";
         let k = if quick { if multi || cdiag { 40 } else if p.kind == "generated" { 12 } else { 6 } } else if multi || cdiag { 120 } else { 24 };
         let k = if widen { k * 3 } else { k };
         let roots: Vec<PathBuf> = (0..copies).map(|c| base.join(format!("{}-c{}", p.id, c))).collect();
